@@ -660,7 +660,10 @@ def run_case(ctx, rng, job):
                 done += 1
                 check()
             continue
-        if rng.random() < 0.15:
+        if not STRICT and rng.random() < 0.15:
+            # (not in the strict configuration: the synthesised specification is a member of the specification graph
+            #  that the harness does not model, and a later declaration may legitimately raise because *it* has no C3
+            #  order)
             # a super() query: it leaves a per-class cache of synthesised specifications on the class
             # declarations involved; re-basing above them afterwards must still reach everything
             impls = [m for m in g.nodes if m.kind in ('impl', 'prov') and len(m.cls.__mro__) > 2]
